@@ -456,6 +456,11 @@ func init() {
 
 				return
 			}
+			if caseNo%40 == 23 {
+				runC09OddLifetime(t, rng, rec, tier, caseNo/40)
+
+				return
+			}
 			if caseNo%4 == 3 {
 				runC09Client(t, rng, rec, tier, caseNo/4)
 
@@ -467,6 +472,105 @@ func init() {
 }
 
 // ---------------------------------------------------------------- client side
+
+// runC09OddLifetime: a server whose Allocate success (and Refresh successes) carry a LIFETIME the
+// client cannot halve into a sensible refresh period: 0, 1, or the largest 32-bit value. The
+// client process must survive, must not flood the server with Refresh requests, and must still
+// carry out a transaction afterwards.
+func runC09OddLifetime(t *testing.T, rng *rand.Rand, rec *sim.Rec, tier string, caseNo int) {
+	n := simnet.New()
+	srv, err := sim.NewScriptedServer(n, sim.ServerIP4, 3478)
+	if err != nil {
+		t.Fatal(err)
+	}
+	life := []uint32{0, 1, 0xFFFFFFFF, 0x80000000, 2}[caseNo%5]
+	var mu sync.Mutex
+	refreshes := 0
+	srv.SetHandler(func(s *sim.ScriptedServer, from *net.UDPAddr, ev sim.SrvEvent) {
+		if ev.Msg == nil || ev.Msg.Class != wire.ClassRequest {
+			return
+		}
+		m := ev.Msg
+		_, hasMI := m.Get(wire.AttrMessageIntegrity)
+		switch {
+		case m.Method == wire.MethodBinding:
+			b := wire.NewBuilder(wire.MethodBinding, wire.ClassSuccess, m.TID)
+			b.AddXorAddr(wire.AttrXORMappedAddress, from.IP, from.Port)
+			s.Send(from, b.Bytes(), 0)
+		case !hasMI:
+			s.Send(from, errResp(m.Method, m.TID, 401, "nonce-0"), 0)
+		case m.Method == wire.MethodAllocate:
+			b := wire.NewBuilder(wire.MethodAllocate, wire.ClassSuccess, m.TID)
+			b.AddXorAddr(wire.AttrXORRelayedAddress, sim.RelayIP4, 50000)
+			b.AddU32(wire.AttrLifetime, life)
+			b.AddXorAddr(wire.AttrXORMappedAddress, from.IP, from.Port)
+			s.Send(from, b.Bytes(), 0)
+		case m.Method == wire.MethodRefresh:
+			mu.Lock()
+			refreshes++
+			over := refreshes > 5000
+			mu.Unlock()
+			if over {
+				return
+			}
+			b := wire.NewBuilder(wire.MethodRefresh, wire.ClassSuccess, m.TID)
+			b.AddU32(wire.AttrLifetime, life)
+			s.Send(from, b.Bytes(), 0)
+		default:
+			s.Send(from, wire.NewBuilder(m.Method, wire.ClassSuccess, m.TID).Bytes(), 0)
+		}
+	})
+	defer srv.Close()
+	logs := sim.NewLogSink()
+	logs.Budget = 400000
+	rc, err := sim.NewRealClient(n, net.IPv4(10, 1, 0, 1).To4(), 5000, "10.0.0.1:3478", "alice", "pw-a", "verif.test", 100*time.Millisecond, logs, nil)
+	if err != nil {
+		t.Fatal(err)
+	}
+	defer func() { rc.Client.Close(); _ = rc.Conn.Close() }()
+	if err := rc.Client.Listen(); err != nil {
+		t.Fatal(err)
+	}
+	done := make(chan error, 1)
+	var conn net.PacketConn
+	go func() {
+		c, err := rc.Client.Allocate()
+		conn = c
+		done <- err
+	}()
+	select {
+	case err = <-done:
+	case <-time.After(5 * time.Minute):
+		rec.Violate("client-blocked", "odd-lifetime/allocate", "Allocate did not return within 5 virtual minutes (server grants LIFETIME %d)", life)
+
+		return
+	}
+	rec.FP("client/odd-lifetime/%d/allocate-err=%v", life, err != nil)
+	// ten virtual seconds with such an allocation (if the client took it)
+	time.Sleep(10 * time.Second)
+	mu.Lock()
+	r := refreshes
+	mu.Unlock()
+	if r > 100 {
+		rec.Violate("client-blocked", "odd-lifetime/refresh-flood", "the client sent %d Refresh requests within 10 s after an Allocate success with LIFETIME %d", r, life)
+
+		return
+	}
+	bdone := make(chan error, 1)
+	go func() { _, err := rc.Client.SendBindingRequest(); bdone <- err }()
+	select {
+	case err := <-bdone:
+		if err != nil {
+			rec.Violate("client-liveness", "odd-lifetime/follow-up", "Binding transaction after an Allocate success with LIFETIME %d failed: %v", life, err)
+		}
+	case <-time.After(time.Minute):
+		rec.Violate("client-blocked", "odd-lifetime/follow-up", "Binding transaction after an Allocate success with LIFETIME %d did not return", life)
+	}
+	if conn != nil {
+		_ = conn.Close()
+	}
+	rec.SetSample(map[string]any{"kind": "odd-lifetime", "lifetime": life, "refreshes_in_10s": r})
+}
 
 // runC09HostileServer: every request of the client is answered by a well-formed but unhelpful
 // response - 438 Stale Nonce with yet another nonce, for ever. Each API call must give up after a
